@@ -525,6 +525,9 @@ outerNew:
 	}
 	for row := range vx.screenNext.buf {
 		reposition = true
+		// Cells before this column must be rewritten even if unchanged: a
+		// wide glyph which used to cover them has been partly overwritten
+		dirty := 0
 		for col := 0; col < len(vx.screenNext.buf[row]); col += 1 {
 			next := vx.screenNext.buf[row][col]
 			if next.sixel {
@@ -532,7 +535,7 @@ outerNew:
 				reposition = true
 				continue
 			}
-			if next == vx.screenLast.buf[row][col] && !vx.refresh {
+			if next == vx.screenLast.buf[row][col] && !vx.refresh && col >= dirty {
 				reposition = true
 				// Advance the column by the width of this
 				// character
@@ -547,6 +550,9 @@ outerNew:
 				}
 				col += skip
 				continue
+			}
+			if end := col + vx.advance(vx.screenLast.buf[row][col]) + 1; end > dirty {
+				dirty = end
 			}
 			vx.screenLast.buf[row][col] = next
 			if reposition {
@@ -746,6 +752,9 @@ outerNew:
 			for i := 1; i < skip+1; i += 1 {
 				if col+i >= len(vx.screenNext.buf[row]) {
 					break
+				}
+				if end := col + i + vx.advance(vx.screenLast.buf[row][col+i]) + 1; end > dirty {
+					dirty = end
 				}
 				// null out any cells we end up skipping
 				vx.screenLast.buf[row][col+i] = Cell{}
